@@ -307,6 +307,31 @@ Proof.
   destruct (Z.eqb_spec la lb); cbn; split; congruence.
 Qed.
 
+(* moveaxis: with the statement order extracted from the source, the repeat test sees NORMALISED axes, so a
+   destination that names one axis twice through sign aliasing ((0, -3) on a 3-d array) is rejected *)
+Theorem validator_moveaxis_spec_proof :
+  forall (src dst : list Z) (ndim : Z),
+    (np_moveaxis_ok src dst ndim = true ->
+       v_moveaxis src dst ndim = Ok (map (fun a => np_axis_norm a ndim) src, map (fun a => np_axis_norm a ndim) dst)) /\
+    (np_moveaxis_ok src dst ndim = false -> v_moveaxis src dst ndim = Raise ValueError).
+Proof.
+  intros src dst ndim. unfold np_moveaxis_ok, np_axes_ok, v_moveaxis, site_moveaxis_steps. cbn [v_moveaxis_run].
+  destruct (forallb (fun a => np_axis_ok a ndim) src) eqn:Hs.
+  - rewrite (normalize_axes_ok _ _ Hs). cbn [bind].
+    destruct (forallb (fun a => np_axis_ok a ndim) dst) eqn:Hd.
+    + rewrite (normalize_axes_ok _ _ Hd). cbn [bind]. change nodupb with np_nodupb. rewrite !map_length.
+      destruct (np_nodupb (map (fun a => np_axis_norm a ndim) dst)) eqn:E1;
+        destruct (length src =? length dst)%nat eqn:E2; cbn [bind]; change nodupb with np_nodupb; rewrite ?E1, ?E2;
+        destruct (np_nodupb (map (fun a => np_axis_norm a ndim) src)); cbn; split; congruence.
+    + rewrite (normalize_axes_bad _ _ Hd). cbn. destruct (np_nodupb (map (fun a => np_axis_norm a ndim) src)); cbn; split; congruence.
+  - rewrite (normalize_axes_bad _ _ Hs). cbn. split; [discriminate|reflexivity].
+Qed.
+
+Example moveaxis_sign_aliased_destination :
+  v_moveaxis [0; 1] [0; -3] 3 = Raise ValueError /\ v_moveaxis [0; 1] [-1; 2] 3 = Raise ValueError /\
+  v_moveaxis [0; 1] [2; 0] 3 = Ok ([0; 1], [2; 0]).
+Proof. repeat split; reflexivity. Qed.
+
 Theorem validator_matmul_0d_spec_proof :
   forall nda ndb : Z,
     (nda <> 0 /\ ndb <> 0 -> v_matmul_0d_check nda ndb = Ok VNone) /\
@@ -577,6 +602,7 @@ Proof.
   - apply negb_true_iff, orb_false_iff in H. destruct H as [H1 H2]. apply Z.eqb_neq in H1, H2.
     rewrite (proj1 (validator_matmul_0d_spec_proof nda ndb) (conj H1 H2)). reflexivity.
   - apply Z.eqb_eq in H. rewrite (proj1 (validator_einsum_out_count_spec_proof cnt) H). reflexivity.
+  - rewrite (proj1 (validator_moveaxis_spec_proof src dst ndim) H). reflexivity.
 Qed.
 
 (* invalid arguments: a clean class, before anything else (see rejection_precedes_kernels) *)
@@ -602,6 +628,7 @@ Proof.
   - apply negb_false_iff, orb_true_iff in H. rewrite !Z.eqb_eq in H.
     rewrite (proj2 (validator_matmul_0d_spec_proof nda ndb) H). eexists; split; reflexivity.
   - apply Z.eqb_neq in H. rewrite (proj2 (validator_einsum_out_count_spec_proof cnt) H). eexists; split; reflexivity.
+  - rewrite (proj2 (validator_moveaxis_spec_proof src dst ndim) H). eexists; split; reflexivity.
 Qed.
 
 (* ---------------------------------------------------------------- non-vacuity *)
